@@ -1489,3 +1489,22 @@ def n1_normalize(ctx):
             ctx.undecided("C06-N1", site, f"normalize(center_at_zero={sw}): the composition of the applied maps is not recognised", "; ".join(sorted({r[1] for r in und})))
         else:
             ctx.ok("C06-N1", site, doc[sw])
+
+
+
+# ----------------------------------------------------------------------- generic families (msa/rules/generic.py)
+_run_specific = run
+
+
+def run(ctx):
+    _run_specific(ctx)
+    from ..rules import generic
+    generic.apply(ctx, "C06", stale_modules=())
+
+
+def _generic_rule_texts():
+    from ..rules import generic
+    return generic.rule_texts("C06", stale=False)
+
+
+RULES.update(_generic_rule_texts())
